@@ -598,6 +598,7 @@ type FuncContract struct {
 	Invs     []Clause // Kind invariant, Loop set
 	LoopDecr []Clause
 	LoopMods []Clause // "loop N modifies ..." (optional extra havoc)
+	LoopHints []Clause // "loop N hint e": intermediate facts proved at the back edges
 	Decr     []Clause
 	Opts     map[string]string // mode, abstract, reveal ...
 	Pos      string
@@ -641,6 +642,7 @@ type Contracts struct {
 	Specs   map[string]*SpecFunc
 	Axioms  []*Axiom
 	Consts  map[string]string
+	Macros  map[string]string
 	Order   []string
 	Files   []string
 }
@@ -662,10 +664,7 @@ func (c *Contracts) ParseContractFile(path string, pkgShort string) error {
 		return err
 	}
 	c.Files = append(c.Files, path)
-	type line struct {
-		s  string
-		no int
-	}
+	type line = cline
 	var lines []line
 	for i, l := range strings.Split(string(data), "\n") {
 		t := strings.TrimSpace(l)
@@ -682,6 +681,14 @@ func (c *Contracts) ParseContractFile(path string, pkgShort string) error {
 			continue
 		}
 		lines = append(lines, line{body, i + 1})
+	}
+	lines2, err := expandFamilies(lines, c, filepath.Base(path))
+	if err != nil {
+		return err
+	}
+	lines = nil
+	for _, l := range lines2 {
+		lines = append(lines, line{l.s, l.no})
 	}
 	// group into items: an item header is a line with no leading indentation beyond one space
 	i := 0
@@ -1065,7 +1072,7 @@ func parseClause(fc *FuncContract, s string, pos string) error {
 	case "loop":
 		fs := strings.Fields(rest)
 		if len(fs) < 3 {
-			return fmt.Errorf("loop N invariant|decreases|modifies expr")
+			return fmt.Errorf("loop N invariant|decreases|modifies|hint expr")
 		}
 		n, err := strconv.Atoi(fs[0])
 		if err != nil {
@@ -1085,6 +1092,13 @@ func parseClause(fc *FuncContract, s string, pos string) error {
 				return err
 			}
 			fc.LoopDecr = append(fc.LoopDecr, c)
+		case "hint":
+			// proof hint: checked at every back edge before the invariants, then assumed
+			c, err := mkc("hint", n, src)
+			if err != nil {
+				return err
+			}
+			fc.LoopHints = append(fc.LoopHints, c)
 		case "modifies":
 			for _, part := range splitTop(src, ',') {
 				e, err := ParseExpr(strings.TrimSpace(part))
@@ -1169,4 +1183,110 @@ func isPlainIdent(s string) bool {
 		}
 	}
 	return !(s[0] >= '0' && s[0] <= '9')
+}
+
+type cline struct {
+	s  string
+	no int
+}
+
+// expandFamilies implements templated contracts:
+//
+//	//@ macro kc.BOOL = t.K.T == tBOOL
+//	//@ family appendMap_$K_$V for K in BOOL I08, V in BOOL I08
+//	//@   requires $(kc.$K) && $(vc.$V)
+//
+// Each family item is instantiated for every combination of its variables: $K is
+// replaced by the value, $(name) by the macro text (after variable substitution).
+func expandFamilies(lines []cline, c *Contracts, file string) ([]cline, error) {
+	var out []cline
+	i := 0
+	for i < len(lines) {
+		h := strings.TrimSpace(lines[i].s)
+		indented := strings.HasPrefix(lines[i].s, "  ") || strings.HasPrefix(lines[i].s, "\t")
+		if !indented && strings.HasPrefix(h, "macro ") {
+			kv := strings.SplitN(h[6:], "=", 2)
+			if len(kv) != 2 {
+				return nil, fmt.Errorf("%s:%d: macro NAME = text", file, lines[i].no)
+			}
+			if c.Macros == nil {
+				c.Macros = map[string]string{}
+			}
+			c.Macros[strings.TrimSpace(kv[0])] = strings.TrimSpace(kv[1])
+			i++
+			continue
+		}
+		if !indented && strings.HasPrefix(h, "family ") {
+			// header: family NAME(params) (results) for K in a b c, V in d e
+			k := strings.Index(h, " for ")
+			if k < 0 {
+				return nil, fmt.Errorf("%s:%d: family ... for VAR in values", file, lines[i].no)
+			}
+			tmplHeader := strings.TrimSpace(h[7:k])
+			type fvr struct {
+				name string
+				vals []string
+			}
+			var vars []fvr
+			for _, part := range strings.Split(h[k+5:], ",") {
+				fs := strings.Fields(part)
+				if len(fs) < 3 || fs[1] != "in" {
+					return nil, fmt.Errorf("%s:%d: family variable syntax", file, lines[i].no)
+				}
+				vars = append(vars, fvr{fs[0], fs[2:]})
+			}
+			no := lines[i].no
+			i++
+			var body []cline
+			for i < len(lines) && (strings.HasPrefix(lines[i].s, "  ") || strings.HasPrefix(lines[i].s, "\t")) {
+				body = append(body, lines[i])
+				i++
+			}
+			// cartesian product
+			idx := make([]int, len(vars))
+			for {
+				sub := func(s string) string {
+					for round := 0; round < 4; round++ {
+						for vi, v := range vars {
+							s = strings.ReplaceAll(s, "$"+v.name, v.vals[idx[vi]])
+						}
+						for {
+							a := strings.Index(s, "$(")
+							if a < 0 {
+								break
+							}
+							b := strings.Index(s[a:], ")")
+							if b < 0 {
+								break
+							}
+							name := s[a+2 : a+b]
+							s = s[:a] + "(" + c.Macros[name] + ")" + s[a+b+1:]
+						}
+					}
+					return s
+				}
+				out = append(out, cline{" func " + sub(tmplHeader), no})
+				for _, bl := range body {
+					out = append(out, cline{sub(bl.s), bl.no})
+				}
+				// next combination
+				k := len(vars) - 1
+				for k >= 0 {
+					idx[k]++
+					if idx[k] < len(vars[k].vals) {
+						break
+					}
+					idx[k] = 0
+					k--
+				}
+				if k < 0 {
+					break
+				}
+			}
+			continue
+		}
+		out = append(out, lines[i])
+		i++
+	}
+	return out, nil
 }
